@@ -93,6 +93,13 @@ class C14(Prop):
                           "dt": "f4", "dseed": rng.randrange(1 << 30)})
             cases.append({"op": "ts_down", "n": n, "f": rng.randint(1, n), "method": rng.choice(("mean", "median")),
                           "dt": "f4", "dseed": rng.randrange(1 << 30)})
+        # the window of `deredden` is given in SECONDS: every width 1..45 bins as `w * tsamp` (several such quotients
+        # are one ulp below the integer: 3e-3 / 1e-3 = 2.9999999999999996)
+        for w in range(1, 46):
+            tsamp = rng.choice((0.1, 1e-3, 0.00016384, 64e-6))
+            cases.append({"op": "deredden", "n": 50, "w": w, "method": rng.choice(("mean", "median")), "dt": "f4",
+                          "dseed": rng.randrange(1 << 30), "tsamp": tsamp,
+                          "window_s": float(f"{w * tsamp:.10g}")})       # the decimal a user would type
         # two operations on the SAME series: the second must still equal its definition on the data supplied
         # (an operation that rearranges or rescales its input in place is only visible to the next one)
         for _ in range(60 * k):
@@ -146,8 +153,12 @@ class C14(Prop):
                 from .c12 import mk_ts
                 x = data_for(case, case["n"])
                 ts = mk_ts(x)
+                if "tsamp" in case:
+                    from sigpyproc.timeseries import TimeSeries
+                    from .c04 import mk_header
+                    ts = TimeSeries(x, mk_header(1, 32, nsamples=len(x), tsamp=case["tsamp"], data_type="time series"))
                 if op == "deredden":
-                    o = ts.deredden(method=case["method"], window=case["w"] * 1e-3)
+                    o = ts.deredden(method=case["method"], window=case.get("window_s", case["w"] * 1e-3))
                 else:
                     o = ts.downsample(case["f"], filter_method=case["method"])
                 return {"out": [float(v) for v in o.data], "shape": [len(o.data)], "dtype": str(o.data.dtype),
